@@ -485,6 +485,8 @@ def parser_pipeline(prop, tier, fam, whys, sweep=0, cfgname=None, need=('"res":"
             "--seed", str(verif.seed()), "--out", trace]
     if sweep:
         args += ["--sweep-stride", str(sweep)]
+    if cfgname in ("c16r", "c16pr"):
+        args += ["--all-protos"]     # small families: every history on all eight protocols
     verif.run_pv(args, timeout=7200)
     n, bad, tres = validate_trace("ParserTrace.tla", "ParserTrace.cfg", trace, timeout=7000)
     violations = []
